@@ -70,6 +70,23 @@ def _helpers(rep, tier):
             types = get_list_of_types(stats)
             if sorted(types) != sorted({k.type for k in ks}) or len(types) != len(set(types)):
                 rep.violation({'kind': 'get_list_of_types'}, {'got': types})
+    # ordering over a signed alphabet: keys below, at and above zero (runs that start at a negative time, the -1
+    # placeholders DefaultHooks writes for level / iter / sweep next to real values 0, 1, ...), every ordered selection
+    # of <= nsel values, i.e. every insertion order of every subset
+    signed = {'time': [-0.5, -0.25, 0.0, 0.25, 10.0], 'iter': [-1, 0, 1, 2, 10], 'level': [-1, 0, 1, 2, 10], 'process': [-1, 0, 1, 2, 10], 'sweep': [-1, 0, 1, 2, 10], 'num_restarts': [-1, 0, 1, 2, 10]}
+    nsel = 5 if tier == 'thorough' else 3
+    nsort = 0
+    base_key = dict(process=0, process_sweeper=0, time=0.0, level=0, iter=0, sweep=0, type='a', num_restarts=0)
+    for field, vals in signed.items():
+        for r in range(1, nsel + 1):
+            for sel in itertools.permutations(vals, r):
+                stats = {Entry(**dict(base_key, **{field: v})): float(i) for i, v in enumerate(sel)}
+                want = sorted([(v, float(i)) for i, v in enumerate(sel)])
+                nsort += 1
+                for name, got in (('get_sorted', get_sorted(stats, sortby=field)), ('sort_stats', sort_stats(stats, field)), ('get_sorted+filter', get_sorted(stats, type='a', sortby=field))):
+                    if list(got) != want:
+                        rep.violation({'kind': 'not_ascending', 'helper': name, 'sortby': field}, {'keys_in_insertion_order': list(sel), 'got': [list(x) for x in got], 'want': [list(x) for x in want]}, {'helper': 'signed', 'field': field, 'sel': list(sel)})
+    rep.coverage['helper_signed_orderings'] = nsort
     rep.coverage['helper_evaluations'] = n
     rep.coverage['helper_nontrivial_filters'] = nontrivial
 
@@ -85,11 +102,13 @@ def run(rep, tier):
         plan.append(('estimate scripts <=2 deviations (4-letter alphabet), ball radius 1', [c09.to_cfg(c, est_n=4, hook_classes=HOOKS, post_checks=POST) for c in base_ball], 2))
         plan.append(('direct restart requests (unchanged dt), <=3', [c09.cfg(P=P, adaptive=None, restart_script=True, hook_classes=HOOKS, post_checks=POST, restarting={'max_restarts': m, 'restart_from_first_step': ff, 'crash_after_max_restarts': False}) for P in (2, 3) for m in (1, 2) for ff in (False, True)], 3))
         plan.append(('convergence patterns, P<=3, K<=2, L<=2 incl. partially filled last block', [block.default_cfg(P=P, K=K, L=L, predict='pfasst_burnin' if L > 1 else None, Tend=0.125 * (P + 1), hook_classes=HOOKS, post_checks=POST, checks=('grammar',), max_blocks=3) for P in (1, 2, 3) for K in (1, 2) for L in (1, 2)], None))
+        plan.append(('the same, run started at a negative time with a step boundary exactly at 0', [block.default_cfg(P=P, K=1, L=L, predict='pfasst_burnin' if L > 1 else None, t0=-0.25, Tend=-0.25 + 0.125 * (P + 1), hook_classes=HOOKS, post_checks=POST, checks=('grammar',), max_blocks=3) for P in (1, 2, 3) for L in (1, 2)], None))
     else:
         plan.append(('estimate scripts <=2 deviations, ball radius 1 incl P=4', [c09.to_cfg(c, hook_classes=HOOKS, post_checks=POST) for c in c09.ball(1, Ps=(1, 2, 3, 4)) if c['tend'] != 'inside_first'], 2))
         plan.append(('estimate scripts <=3 deviations (4-letter alphabet), base', [c09.to_cfg(c, est_n=4, hook_classes=HOOKS, post_checks=POST) for c in c09.ball(0)], 3))
         plan.append(('direct restart requests (unchanged dt), <=4', [c09.cfg(P=P, adaptive=None, restart_script=True, hook_classes=HOOKS, post_checks=POST, restarting={'max_restarts': m, 'restart_from_first_step': ff, 'crash_after_max_restarts': False}) for P in (2, 3, 4) for m in (1, 2, 3) for ff in (False, True)], 4))
         plan.append(('convergence patterns, P<=3, K<=3, L<=3 incl. partially filled last block', [block.default_cfg(P=P, K=K, L=L, predict='pfasst_burnin' if L > 1 else None, Tend=0.125 * (P + 1), hook_classes=HOOKS, post_checks=POST, checks=('grammar',), max_blocks=3) for P in (1, 2, 3) for K in (1, 2, 3) for L in (1, 2, 3)], None))
+        plan.append(('the same, run started at a negative time with a step boundary exactly at 0', [block.default_cfg(P=P, K=K, L=L, predict='pfasst_burnin' if L > 1 else None, t0=-0.25, Tend=-0.25 + 0.125 * (P + 1), hook_classes=HOOKS, post_checks=POST, checks=('grammar',), max_blocks=3) for P in (1, 2, 3) for K in (1, 2) for L in (1, 2)], None))
     bounds = []
     for label, vs, bound in plan:
         res = _e1.explore_variants(rep, make, vs, bound=bound, label=label)
@@ -97,7 +116,7 @@ def run(rep, tier):
     _helpers(rep, tier)
     rep.coverage['bounds_completed'] = bounds
     rep.coverage['exhaustive'] = not any(b['capped'] for b in bounds)
-    rep.coverage['rule'] = 'part A: every environment script within the deviation bound per configuration; part B: every statistics dictionary with <= N entries over a 2-valued key alphabet x every filter query x every sort key'
+    rep.coverage['rule'] = 'part A: every environment script within the deviation bound per configuration; part B: every statistics dictionary with <= N entries over a 2-valued key alphabet x every filter query x every sort key; every ordered selection of <= 3 (thorough 5) keys from a 5-valued signed alphabet (negative, zero, positive) per sort field'
 
 
 def replay(rep, case):
